@@ -206,7 +206,8 @@ def _binop(op, x, ex, y, ey, exact_in):
     if isinstance(r, complex):
         raise Undefined("complex")
     r = _chk(r)
-    if exact_in:
+    if exact_in or e != e or x != x or y != y:
+        # NaN operands are NaN on every evaluation route: nothing to propagate
         return r, 0.0
     return r, e + 2 * ulp(r)
 
@@ -465,7 +466,10 @@ def close(got, val, i):
         return True
     if math.isinf(g) or math.isinf(exp):
         return False
-    return abs(g - exp) <= max(1e-12, 1e-9 * max(abs(g), abs(exp))) + 8 * val.e[i]
+    e = val.e[i]
+    if e != e:
+        e = 0.0
+    return abs(g - exp) <= max(1e-12, 1e-9 * max(abs(g), abs(exp))) + 8 * e
 
 
 def ill_conditioned(val):
